@@ -108,6 +108,19 @@ def run_walker_r0(ctx, out):
         notd = "-T" in case["flags"]
         srcargs, destarg = build(case, d)
         src = srcargs[0]
+        if deref:
+            # following a link to an ancestor of the sandbox puts the destination INSIDE the source (outside every
+            # property's quantifier; the copy nests until PATH_MAX): no dereferencing for such trees
+            real_d = os.path.realpath(d)
+            for root, dirs, files in os.walk(os.path.join(os.fsencode(d), src if not src.startswith(b"/") else src)):
+                for nme in dirs + files:
+                    pth = os.path.join(root, nme)
+                    if os.path.islink(pth):
+                        tgt = os.path.realpath(pth)
+                        if os.fsencode(real_d) == tgt or os.fsencode(real_d).startswith(tgt.rstrip(b"/") + b"/"):
+                            deref = False
+            if not deref:
+                out.count("walk_deref_dropped_dest_inside_source")
         os.chdir(d)
         try:
             tbase = treecase.target_base(destarg, src, notd)
